@@ -16,7 +16,7 @@ Representation (all values are hashable tuples, part of the per-path abstract st
 """
 import re
 
-from core import AbsPaths, norm, _as_int
+from core import deref_value, AbsPaths, norm, _as_int
 
 NONE = ("variant", "None", ())
 ITERS = ("iterv", "enum", "arr", "flat", "fromfn", "mapped", "filtered")
@@ -30,16 +30,8 @@ def tup(*vs):
     return ("variant", "()", tuple((i, v) for i, v in enumerate(vs)))
 
 
-def _deref(st, v, depth=6):
-    while v is not None and depth > 0:
-        depth -= 1
-        if v[0] in ("ref", "refmut"):
-            v = st.get(v[1])
-        elif v[0] == "refval":
-            v = v[1]
-        else:
-            break
-    return v
+def _deref(st, v, depth=8):
+    return deref_value(st, v, depth)
 
 
 def _list_of(st, v):
@@ -249,6 +241,8 @@ def _call_closure(ev, st, closure_val, args):
             return ("refval", freeze(st.get(v[1]), depth - 1))
         if v[0] == "refval":
             return ("refval", freeze(v[1], depth - 1))
+        if v[0] in ("pref", "cellref") and v[0] == "pref":
+            return ("refval", freeze(deref_value(st, v, 1), depth - 1))
         if v[0] == "variant":
             return ("variant", v[1], tuple((i, freeze(x, depth - 1)) for i, x in v[2]))
         return v
